@@ -225,14 +225,96 @@ class MapValues(ExtObj):
             spec.havoc = orig_havoc
 
 
-class ChainVal:
-    """itertools.chain(...) of iterables"""
+class ChainVal(ExtObj):
+    """itertools.chain(...) of iterables.  A `for` over a chain of values views is the invariant rule over an arbitrary
+    enumeration of all their entries (an over-approximation of "first all of part 0, then all of part 1, ..."); the
+    locals `_seen0`, `_seen1`, ... are the keys already visited in each part."""
 
     def __init__(self, parts):
         self.parts = list(parts)
 
+    def clone(self):
+        return ChainVal(self.parts)
+
     def __repr__(self):
         return f'ChainVal({self.parts})'
+
+    def ext_truth(self, ex, ref):
+        return True
+
+    def ext_len(self, ex, ref):
+        ex.raise_(TypeError, "object of type 'itertools.chain' has no len()")
+
+    def ext_havoc(self, ex, ref, hint):
+        return None
+
+    def ext_unchanged(self, ex, other):
+        return True
+
+    def ext_method(self, ex, ref, name, args, kwargs):
+        raise Unsupported(f'method {name} of itertools.chain')
+
+    def ext_subscript(self, ex, ref, i):
+        ex.raise_(TypeError, "'itertools.chain' object is not subscriptable")
+
+    def ext_for(self, ex, ref, s, spec):
+        if spec is None:
+            raise Unsupported(f'for loop over a chain of symbolic views without invariant at {ex.cur_loc}')
+        mrefs = _view_parts(ex, ref)
+        if mrefs is None:
+            raise Unsupported('for loop over a chain of something else than values views of symbolic maps')
+        seen = []
+        for i, mref in enumerate(mrefs):
+            r = ex.alloc(MObj(z3.K(z3.IntSort(), z3.BoolVal(False)), {}, None, ex.obj(mref).elem_model))
+            ex.store_name(f'_seen{i}', r)
+            seen.append(r)
+        cur = {}
+        orig_havoc = spec.havoc
+
+        def havoc(path, node, extra):
+            orig_havoc(path, node, extra)
+            hs = getattr(path, 'headstate', None)
+            for r in seen:
+                path.wobj(r).dom = z3.Const(path.fresh_name('_seen.dom'), z3.ArraySort(z3.IntSort(), z3.BoolSort()))
+                if hs is not None:
+                    hs['heap'][r.oid] = path.heap[r.oid].clone()
+                if getattr(spec, 'mods', None) is not None:
+                    path.snapshots.get(spec.snap_name(), {}).pop(r.oid, None)
+
+        spec.havoc = havoc
+
+        def unvisited(i, k):
+            return z3.And(z3.Select(ex.obj(mrefs[i]).dom, k.t), z3.Not(z3.Select(ex.obj(seen[i]).dom, k.t)))
+
+        def test():
+            cur['doms'] = [ex.obj(m).dom for m in mrefs]
+            alts = []
+            for i, mref in enumerate(mrefs):
+                k = _fresh_key(ex, ex.obj(mref), 'k')
+                alts.append(z3.Exists([k.t], unvisited(i, k)))
+            return mk_bool(z3.Or(*alts))
+
+        def pre_body():
+            conds = []
+            keys = []
+            for i, mref in enumerate(mrefs):
+                k0 = _fresh_key(ex, ex.obj(mref), 'key')
+                keys.append(k0)
+                conds.append(unvisited(i, k0))
+            i = ex.decide(conds, 'chain part') if len(conds) > 1 else 0
+            if len(conds) == 1:
+                ex.assume(mk_bool(conds[0]))
+            ex.wobj(seen[i]).dom = z3.Store(ex.obj(seen[i]).dom, keys[i].t, True)
+            ex.assign(s.target, ElemRef(mrefs[i], keys[i]))
+
+        def stepf():
+            if any(ex.obj(m).dom is not d for m, d in zip(mrefs, cur['doms'])):
+                raise Unsupported('the key set of a dict changes while its values are being iterated')
+
+        try:
+            ex.cut_loop(s, spec, test, pre_body, (), stepf)
+        finally:
+            spec.havoc = orig_havoc
 
 
 _orig_map_method = MC.map_method
@@ -250,7 +332,7 @@ MC.map_method = map_method
 
 
 def m_chain(ex, *its):
-    return ChainVal(its)
+    return ex.alloc(ChainVal(its))
 
 
 MC.NATIVE_MODELS[itertools.chain] = m_chain
@@ -268,9 +350,9 @@ def _view_parts(ex, it):
     """list of map refs if `it` is a values view or a chain of values views, else None"""
     if isinstance(it, Ref) and isinstance(ex.obj(it), MapValues):
         return [ex.obj(it).mref]
-    if isinstance(it, ChainVal):
+    if isinstance(it, Ref) and isinstance(ex.obj(it), ChainVal):
         out = []
-        for p in it.parts:
+        for p in ex.obj(it).parts:
             q = _view_parts(ex, p)
             if q is None:
                 return None
@@ -795,3 +877,41 @@ def verify(registry, top, *a, **k):
 
 
 VG.verify = verify
+
+
+# ---------------------------------------------------------------------------
+# old.<param> where the argument is an entry of a symbolic map: the entry as it was in the snapshot
+# ---------------------------------------------------------------------------
+_orig_mark_old = VG.mark_old
+
+
+def mark_old(v, snap):
+    if isinstance(v, ElemRef) and v.mref.old is None:
+        return ElemRef(Ref(v.mref.oid, snap), v.key)
+    return _orig_mark_old(v, snap)
+
+
+VG.mark_old = mark_old
+
+
+# ---------------------------------------------------------------------------
+# after a callee contract was applied, a path whose condition became inconsistent (the assumed postcondition excludes
+# the chosen outcome, e.g. "returns None" although the precondition says the entry exists) ends there
+# ---------------------------------------------------------------------------
+_orig_apply_contract = VG.Config.apply_contract
+
+
+def apply_contract(self, path, c2, f, args, kwargs):
+    r = _orig_apply_contract(self, path, c2, f, args, kwargs)
+    # (Path.feasible first asks a weakening of the path condition without quantified / array facts, which cannot see
+    # such a contradiction: ask the solver about the whole path condition; `unknown` keeps the path)
+    s = z3.Solver()
+    s.set('timeout', min(path.explorer.feas_timeout_ms, 2000))
+    for p in path.pc:
+        s.add(p)
+    if s.check() == z3.unsat:
+        raise Infeasible()
+    return r
+
+
+VG.Config.apply_contract = apply_contract
